@@ -4,6 +4,11 @@
 // (the send callback) that accepts or rejects per plan.
 #include "worlds/common.hpp"
 #include "kernel/simio.hpp"
+#define protected public
+#define private public
+#include "io.h"
+#undef protected
+#undef private
 #include <fcntl.h>
 #include <poll.h>
 #include <unistd.h>
@@ -79,7 +84,7 @@ struct ReplyWorld : World {
 		       "\"stub\":[\"transport = send callback accepting or rejecting per plan\",\"allocator (ledger + n-th allocation fails)\",\"per-request bookkeeping (accepted at most once, id, reply mark)\"]}";
 	}
 	void gen(Rng &r, Plan &p, int tier) override {
-		if (r.chance(1, 3)) { unsigned l = (unsigned) r.below(3); if (l == 0) gen_stream(r, p, tier); else if (l == 1) gen_conn(r, p, tier); else gen_dgram(r, p, tier); return; }
+		if (r.chance(1, 3)) { unsigned l = (unsigned) r.below(7); if (l < 2) gen_stream(r, p, tier); else if (l < 4) gen_conn(r, p, tier); else if (l < 6) gen_dgram(r, p, tier); else { gen_conn(r, p, tier); p.set("layer", 4); } return; }
 		p.set("layer", 0);
 		p.set("ctxlen", r.chance(1, 5) ? r.range(9, 20) : r.range(1, 8));
 		int nops = (int) r.range(1, tier ? 80 : 40);
@@ -522,6 +527,146 @@ struct ReplyWorld : World {
 		if (ledger_live()) fail("leak", "%zu block(s) allocated after both connections were finished: %s", ledger_live(), ledger_describe().c_str());
 	}
 
+	// ---- layer L4: the C++ io::stream as requester (await / push / sync / dispatch of its own) against a connection as responder
+	void exec_cxxreq(const Plan &p, Log &log, Stats &st) {
+		ConnCtx C; C.log = &log; C.st = &st; CCp = &C;
+		unsigned idlen = C.idlen = (unsigned) std::min<int64_t>(std::max<int64_t>(p.get("idlen", 2), 1), 8);
+		size_t chancap = (size_t) std::min<int64_t>(std::max<int64_t>(p.get("chancap", 4096), 1), 1 << 20);
+		bool use_sync = p.get("sync") != 0, big = p.get("big") != 0;
+		int ab = simio::new_chan(chancap), ba = simio::new_chan(chancap);
+		C.peer[0].name = "A(io::stream)"; C.peer[1].name = "B";
+		// responder B: as in L2
+		Peer &B = C.peer[1]; B.rchan = ab; B.wchan = ba; B.fd = simio::new_fd(B.rchan, B.wchan, O_RDWR | O_NONBLOCK);
+		{ void *mem; { Sut s; mem = malloc(sizeof(stream)); } B.srm = new (mem) stream();
+		  int rc; { Sut s; socket sk; sk._id = B.fd; rc = mpt_stream_dopen(B.srm, &sk, stream::RdWr | stream::Buffer); sk._id = -1; } if (rc < 0) fail("setup", "dopen B");
+		  B.srm->_wd._enc = mpt_message_encoder(EncodingCobs); B.srm->_rd._dec = mpt_message_decoder(EncodingCobs);
+		  void *cm; { Sut s; cm = calloc(1, sizeof(connection)); } B.con = (connection *) cm;
+		  B.con->out.sock._id = -1; *reinterpret_cast<void **>(&B.con->out.buf) = B.srm; B.con->out._idlen = (uint8_t) idlen; }
+		// requester A: io::stream::input over the other end
+		Peer &A = C.peer[0]; A.rchan = ba; A.wchan = ab; A.fd = simio::new_fd(A.rchan, A.wchan, O_RDWR | O_NONBLOCK);
+		io::stream::input *ios; { Sut s; ios = io::stream::input::create(0); }
+		if (!ios) fail("setup", "io::stream::input::create failed");
+		{ Sut s; if (!ios->_srm) ios->_srm = new stream(); socket sk; sk._id = A.fd; int rc = mpt_stream_dopen(ios->_srm, &sk, stream::RdWr | stream::Buffer); sk._id = -1; if (rc < 0) fail("setup", "dopen A"); }
+		ios->_srm->_wd._enc = mpt_message_encoder(EncodingCobs); ios->_srm->_rd._dec = mpt_message_decoder(EncodingCobs);
+		ios->_idlen = (uint8_t) idlen; ios->_inputFile = A.fd;      // set_property("idlen") refuses exactly that name (section 9)
+		A.srm = ios->_srm;
+		log.ev("reply L4 idlen=%u chancap=%zu reply intake=%s", idlen, chancap, use_sync ? "sync+dispatch" : "dispatch");
+		st.hit("layer:L4");
+		uint32_t serial = 1;
+		auto snapshot = [&](int s) { std::vector<int> v; for (auto &r : C.peer[s].sent) v.push_back(r.handled); return v; };
+		auto mark_faulted = [&](const std::vector<int> &b0) { for (size_t k = 0; k < A.sent.size(); ++k) if (A.sent[k].handled && (k >= b0.size() || !b0[k])) A.sent[k].faulted = true; };
+		auto serveB = [&](AllocFault af) -> int {
+			uint64_t failn = af.n; int n; { Sut s; n = mpt_stream_poll(B.srm, POLLIN, 0); } int d, guard = 0;
+			do { std::vector<int> b0 = snapshot(0); bool fired; { Sut s(failn, af.from); SUT_GUARD_ABORT(d = mpt_connection_dispatch(B.con, conn_handler, (void *) (uintptr_t) 1)); fired = g.fired; }
+				check_pending(); if (fired) { st.hit("fault:allocfail_in_dispatch"); if (!af.from) failn = 0; mark_faulted(b0); } } while (d >= 0 && (d & 0x10000) && ++guard < 64);
+			log.ev("SERVE B poll=%d dispatch=%d", n, d); return d;
+		};
+		auto serveA = [&]() -> int {
+			int n; { Sut s; n = ios->next(POLLIN); } int d, guard = 0;
+			do { { Sut s; SUT_GUARD_ABORT(d = ios->dispatch(conn_handler, (void *) (uintptr_t) 0)); } check_pending(); } while (d >= 0 && (d & 0x10000) && ++guard < 64);
+			log.ev("SERVE A next=%d dispatch=%d", n, d); return d;
+		};
+		auto flush = [&](int side, int fault, int64_t fa) -> int {
+			Peer &P = C.peer[side]; simio::Fd *f = simio::get(P.fd);
+			f->wfault = fault == FL_SHORT ? simio::F_SHORT : fault == FL_EAGAIN ? simio::F_EAGAIN : 0; f->wfa = fa;
+			int n; { Sut s; n = side ? mpt_stream_poll(P.srm, POLLOUT, 0) : ios->next(POLLOUT); }
+			f->wfault = 0; log.ev("FLUSH %s -> %d", P.name, n); return n;
+		};
+		auto late_reply = [&](CReq &q, int64_t failn, bool drop) {
+			std::string t = answer_text(q); Bytes b = {(uint8_t) msgtype::Answer, 0}; b.insert(b.end(), t.begin(), t.end());
+			message m; m.base = b.data(); m.used = b.size(); m.cont = 0; m.clen = 0;
+			int r; bool fired; { Sut s(failn); SUT_GUARD_ABORT(r = q.late->reply(drop ? 0 : &m)); fired = g.fired; }
+			check_pending(); log.ev("LATE_REPLY B r%u%s -> %d", q.serial, drop ? " (released unanswered)" : "", r);
+			if (fired) { st.hit("fault:allocfail_in_late_reply"); q.faulted = true; } if (drop) q.late_dropped = true;
+			if (r >= 0 || drop) { q.late = 0; if (!q.more_late.empty()) { q.late = q.more_late.back(); q.more_late.pop_back(); } }
+		};
+		for (const Op &op : p.ops) {
+			st.hit(std::string("op:") + OPS[op.kind]);
+			int side = (int) (op.b & 1), outcome = 0;
+			int64_t failn = op.fault == FL_ALLOC ? std::max<int64_t>(op.fa, 1) : 0; if (failn >= 17) failn = 0;
+			switch (op.kind) {
+			case OP_REQ: {
+				Peer &P = C.peer[side];
+				if (P.sent.size() >= 10) break;
+				CReq q; q.serial = serial++; q.behaviour = (int) ((op.b >> 8) & 0xff) % 7; q.awaited = side == 0 && ((op.b >> 16) & 1); q.cb_result = ((op.a >> 2) & 3) == 0 ? -1 : 0;
+				q.payload = {0x08, 0x00}; for (int k = 0; k < 4; ++k) q.payload.push_back((uint8_t) (q.serial >> (8 * k)));
+				size_t extra = big ? (size_t) ((uint64_t) op.a >> 5) % 250 : (size_t) op.c % 40; for (size_t k = 0; k < extra; ++k) q.payload.push_back((uint8_t) (op.a >> (k % 8)));
+				P.sent.push_back(q); CReq &Q = P.sent.back(); size_t idx = P.sent.size() - 1;
+				bool fired = false; int ar = 0; ssize_t r = 0;
+				if (side == 0) {
+					Sut s(failn);
+					if (Q.awaited) { SUT_GUARD_ABORT(ar = ios->await(conn_reply_cb, (void *) (uintptr_t) ((0 << 16) | (idx + 1)))); }
+					if (ar >= 0) {
+						Q.cid = ios->_cid;
+						size_t off = 0, cut = (op.a & 1) ? Q.payload.size() / 2 : Q.payload.size(); int guard = 0;
+						while (off < Q.payload.size() && ++guard < 64) {          // push reports what it took; the caller offers the rest again
+							size_t n = (off < cut ? cut : Q.payload.size()) - off;
+							SUT_GUARD_ABORT(r = ios->push(n, Q.payload.data() + off));
+							if (r <= 0) break;
+							off += (size_t) r;
+						}
+						if (r >= 0 && off == Q.payload.size()) { SUT_GUARD_ABORT(r = ios->push(0, 0)); }
+						if (r < 0 || off < Q.payload.size()) Q.push_failed = true; else Q.sent = true;
+					} else Q.push_failed = true;
+					fired = g.fired;
+				} else {
+					Sut s(failn);
+					size_t off = 0; int guard = 0;
+					while (off < Q.payload.size() && ++guard < 64) { SUT_GUARD_ABORT(r = mpt_connection_push(B.con, Q.payload.size() - off, Q.payload.data() + off)); if (r <= 0) break; off += (size_t) r; }
+					if (r >= 0 && off == Q.payload.size()) { SUT_GUARD_ABORT(r = mpt_connection_push(B.con, 0, 0)); }
+					if (r < 0 || off < Q.payload.size()) { Q.push_failed = true; if (r >= 0) { SUT_GUARD_ABORT(mpt_connection_push(B.con, 1, 0)); } } else Q.sent = true;
+					fired = g.fired;
+				}
+				check_pending();
+				if (fired) { st.hit("fault:allocfail_in_request"); Q.faulted = true; }
+				if (Q.push_failed && !fired) st.hit("probe:send_refused_without_fault");
+				if (Q.push_failed && side == 0) { Sut s; ios->push(1, 0); }        // the caller drops the partial message
+				log.ev("REQUEST %s r%u id=%llx behaviour=%d %s payload=%zu -> %s", P.name, Q.serial, (unsigned long long) Q.cid, Q.behaviour, Q.awaited ? "awaited" : "one-way", Q.payload.size(), Q.sent ? "sent" : "failed");
+				if (Q.awaited && Q.sent && !Q.cid) fail("no-id", "awaited request r%u was sent without an id", Q.serial);
+				outcome = Q.sent; break;
+			}
+			case OP_DELIVER: { size_t n = simio::deliver(C.peer[side].wchan, (size_t) std::max<int64_t>(op.c, 1)); log.ev("DELIVER from %s: %zu", C.peer[side].name, n); if (n == 1) st.hit("fault:single_byte_delivery"); else if (n) st.hit("fault:segment_cut"); outcome = n > 0; break; }
+			case OP_SERVE: outcome = (side ? serveB(alloc_fault(op, FL_ALLOC)) : serveA()) >= 0; break;
+			case OP_FLUSH: if (op.fault) st.hit(std::string("fault:writev_") + FAULTS[op.fault]); flush(side, op.fault, op.fa); outcome = 1; break;
+			case OP_DREPLY2: { std::vector<CReq *> pendg; for (auto &r : A.sent) if (r.late) pendg.push_back(&r); if (pendg.empty()) break;
+				CReq &q = *pendg[(size_t) ((uint64_t) op.a >> 8) % pendg.size()]; late_reply(q, failn, q.behaviour == 5 && (op.a & 2)); outcome = 1; break; }
+			case OP_SYNC: {
+				if (!use_sync) break;
+				int timeout = (op.c % 3) == 0 ? 0 : (int) (op.c % 5000); int64_t t0 = simio::S.now_ms; uint64_t forever0 = simio::S.poll_block_forever;
+				int r; { Sut s; SUT_GUARD_ABORT(r = ios->sync(timeout)); }
+				check_pending(); int64_t waited = simio::S.now_ms - t0;
+				log.ev("SYNC A timeout=%d -> %d after %lld ms", timeout, r, (long long) waited); st.hit("probe:sync");
+				if (waited > timeout) fail("overslept", "io::stream sync with a timeout of %d ms waited %lld ms", timeout, (long long) waited);
+				if (simio::S.poll_block_forever != forever0) fail("blocks-forever", "io::stream sync with a timeout of %d ms polled without timeout", timeout);
+				outcome = r >= 0; break;
+			}
+			}
+			st.state(820 + op.kind, (int) std::min<size_t>(A.sent.size() + B.sent.size(), 3) * 4 + (op.fault ? 2 : 0) + side, outcome);
+		}
+		for (int round = 0; round < 100000; ++round) {
+			uint64_t before = simio::chan(ab)->read + simio::chan(ba)->read + simio::chan(ab)->written + simio::chan(ba)->written;
+			for (int s = 0; s < 2; ++s) {
+				simio::deliver(C.peer[s].wchan, 1 << 20);
+				if (s) { serveB(AllocFault{0, false}); for (auto &r : A.sent) if (r.late) late_reply(r, 0, false); } else serveA();
+				for (int k = 0; k < 4096 && flush(s, 0, 0) > 0; ++k) simio::deliver(C.peer[s].wchan, 1 << 20);
+			}
+			uint64_t after = simio::chan(ab)->read + simio::chan(ba)->read + simio::chan(ab)->written + simio::chan(ba)->written;
+			bool left = !simio::chan(ab)->wire.empty() || !simio::chan(ba)->wire.empty() || !simio::chan(ab)->avail.empty() || !simio::chan(ba)->avail.empty();
+			if (after == before && !left && round > 1) break;
+		}
+		for (int s = 0; s < 2; ++s) for (auto &q : C.peer[s].sent) {
+			if (!q.sent) continue;
+			if (!q.handled && !q.faulted) fail("request-lost", "request r%u of %s was sent completely but never dispatched at the peer", q.serial, C.peer[s].name);
+			if (q.awaited && q.handled && !q.faulted && q.callbacks != 1) fail("no-reply", "awaited request r%u of %s (behaviour %d) was dispatched but its callback ran %d times", q.serial, C.peer[s].name, q.behaviour, q.callbacks);
+			if (!q.awaited && q.callbacks) fail("wrong-requester", "one-way request r%u got an answer", q.serial);
+		}
+		{ Sut su; mpt_connection_fini(B.con); free(B.con); }
+		{ Sut su; ios->unref(); }
+		check_pending(); CCp = 0;
+		st.hit("sim:ms", (uint64_t) simio::S.now_ms);
+		if (ledger_live()) fail("leak", "%zu block(s) allocated after the io::stream and the connection were released: %s", ledger_live(), ledger_describe().c_str());
+	}
+
 	// ---- layer L3: two real mpt_output_remote objects on a simulated datagram socket pair (loss, duplication, reordering)
 	void gen_dgram(Rng &r, Plan &p, int tier) {
 		p.set("layer", 3);
@@ -757,6 +902,7 @@ struct ReplyWorld : World {
 		}
 	}
 	void exec(const Plan &p, Log &log, Stats &st) override {
+		if (p.get("layer") == 4) { exec_cxxreq(p, log, st); return; }
 		if (p.get("layer") == 3) { exec_dgram(p, log, st); return; }
 		if (p.get("layer") == 2) { exec_conn(p, log, st); return; }
 		if (p.get("layer")) { exec_stream(p, log, st); return; }
